@@ -19,7 +19,11 @@ from .core import san
 from .tap import TapEnvironment, EmptySchedule, StopSimulation, Event
 from onl.sim import Interrupt
 
-EXC = {'ValueError': ValueError, 'KeyError': KeyError, 'RuntimeError': RuntimeError,
+class HarnessAbort(BaseException):
+    """A user exception that derives directly from BaseException (legal for Event.fail and for process bodies)."""
+
+
+EXC = {'HarnessAbort': HarnessAbort, 'ValueError': ValueError, 'KeyError': KeyError, 'RuntimeError': RuntimeError,
        'ZeroDivisionError': ZeroDivisionError, 'IndexError': IndexError, 'OSError': OSError}
 
 GRID = [0, 0, 0.25, 0.5, 0.5, 1, 1, 1, 1.5, 2, 2, 3]
@@ -514,7 +518,7 @@ def drive(w, plan, max_steps=3000):
                     break
                 except StopSimulation:
                     pass
-                except Exception:
+                except (Exception, HarnessAbort):
                     pass
         elif k == 'steps':
             for _ in range(item[1]):
@@ -524,7 +528,7 @@ def drive(w, plan, max_steps=3000):
                     break
                 except StopSimulation:
                     pass
-                except Exception:
+                except (Exception, HarnessAbort):
                     pass
         elif k == 'until':
             t = item[1]
@@ -541,7 +545,7 @@ def drive(w, plan, max_steps=3000):
                 else:
                     w.rec('D', 'until', t, 'exc', san(e), now0)
                     _finish_until(w, max_steps)
-            except Exception as e:
+            except (Exception, HarnessAbort) as e:
                 w.rec('D', 'until', t, 'exc', san(e), now0)
                 _finish_until(w, max_steps)
         elif k == 'until_ev':
@@ -554,7 +558,7 @@ def drive(w, plan, max_steps=3000):
                 r = env.run(until=ev)
                 w.rec('D', 'until_ev', item[1], 'ret', san(r), r is getattr(ev, '_value', None), was,
                       env.step_no - s0)
-            except Exception as e:
+            except (Exception, HarnessAbort) as e:
                 w.rec('D', 'until_ev', item[1], 'exc', san(e), None, was, env.step_no - s0)
     return env.step_no
 
@@ -569,7 +573,7 @@ def _finish_until(w, max_steps):
             break
         except StopSimulation:
             break
-        except Exception:
+        except (Exception, HarnessAbort):
             pass
 
 
